@@ -480,6 +480,29 @@ theorem calcchain_consistent_after_delete (s s' : St) (n : Name) (h : deleteShee
       rw [calcchain_delete_sheet cs v.id hr, List.mem_filter]
       exact ⟨hc, by simpa using hne⟩
 
+/-- `copySheet` (third wave): after any history the calcChain call of `copySheet(from, to)` —
+`deleteCalcChain(getSheetID(GetSheetName(to)), "")` — addresses exactly the sheet at index `to` (name lookup
+cannot hit an earlier sheet: names are unique case-insensitively), so by `calcchain_delete_sheet` it removes
+the entries of the overwritten worksheet and keeps every other entry; transcript op `calcc` -/
+theorem calcchain_copy_target (ops : List Op) (t : Nat) (sht : Sheet) (cs : List CalcC)
+    (ht : (run init ops).sheets[t]? = some sht) :
+    copySheetCalc (run init ops) t cs = deleteCalcChain cs sht.id [] := by
+  have hi : Sheets.Inv (run init ops) := run_inv init ops init_inv
+  generalize run init ops = s at hi ht
+  have hf := find?_nodup_key (fun sh : Sheet => fold sh.name) s.sheets t sht hi.uniq_ci ht
+  have hid : getSheetID s (getSheetName s t) = some sht.id := by
+    unfold getSheetID getSheetName
+    rw [ht]; dsimp only
+    have hf' : s.sheets.find? (fun sh : Sheet => nameEq Facts.C16.foldGetSheetID sh.name sht.name) = some sht := by
+      rw [← hf]
+      congr 1
+      funext y
+      apply Bool.eq_iff_iff.mpr
+      simp [nameEq, eqFold]
+    rw [hf']; rfl
+  unfold copySheetCalc
+  rw [hid]
+
 /-! ## clause "the content of sheets not targeted by an operation is unchanged": frame theorem over the
 per-sheet content token; opened workbooks: every theorem from ANY consistent state -/
 
